@@ -129,7 +129,7 @@ static xb_t xdup(const uch *src, size_t n, int off)
 #define xout(n, off) xdup(NULL, (n), (off))
 #define xfree(b) free((b).base)
 
-static int g_verbose;
+static int g_verbose, g_replay_mode;
 static void vhex(const char *label, const uch *p, size_t n)
 {
     size_t i;
@@ -275,7 +275,7 @@ static void chk(const pc_t *pc, const char *fam)
     {
         return;
     }
-    if (++B.since_deadline_check >= 2048)
+    if (++B.since_deadline_check >= 2048 && !g_replay_mode)
     {
         B.since_deadline_check = 0;
         if (mx_deadline_hit())
@@ -318,7 +318,14 @@ static void chk(const pc_t *pc, const char *fam)
         snprintf(res.what, sizeof(res.what), "%s", what);
         snprintf(res.outcome, sizeof(res.outcome), "%.30s:%.18s:%s", short_label(pc), fam, r == 3 ? "UBSAN" : "MISMATCH");
         res.trace_hash = fnv1a(res.key, strlen(res.key), FNV0);
-        mx_record(&res);
+        if (g_replay_mode)
+        {
+            fprintf(stderr, "  VIOLATION key=%s desc=%s\n    %s\n", res.key, res.desc, res.what);
+        }
+        else
+        {
+            mx_record(&res);
+        }
     }
 }
 
